@@ -30,10 +30,11 @@ Definition ttl_ok (t : Z) : Prop := 0 <= t <= 2147483647.
 
 (* an RRset of the zone other than the SOA: owner at or below the origin, a non-empty set; its type is
    not one of the other singleton types (NXT, DNAME, NSEC, CNAME), whose replace-on-add semantics the
-   theorems do not cover *)
+   theorems do not cover, and it is not RRSIG(CNAME) (no CNAME-kind rdataset: dns/node.py's
+   CNAME-and-other-data exclusion never fires) *)
 Definition entry_wf (ke : key * entry) : Prop :=
   let '((n, t, c), (ttl, ds)) := ke in
-  0 <= n /\ t <> tSOA /\ ttl_ok ttl /\ ds <> [] /\ ssorted ds /\ is_singleton t = false.
+  0 <= n /\ t <> tSOA /\ ttl_ok ttl /\ ds <> [] /\ ssorted ds /\ is_singleton t = false /\ kind_of t c <> 2.
 
 Definition rest_wf (z : zone) : Prop := NoDup (map fst z) /\ Forall entry_wf z.
 Definition version_wf (v : version) : Prop := ttl_ok (v_ttl v) /\ rest_wf (v_rest v).
